@@ -127,7 +127,16 @@ def qf(pc):
 
 
 def discharge(ob, timeout_ms):
-    """as vc.backends.discharge (quantifier-free hypotheses first), with the quantifier test cached per term"""
+    """as vc.backends.discharge (quantifier-free hypotheses first), with the quantifier test cached per term; an `unknown` is
+    retried once with four times the limit (load must not flip a provable obligation to undecided)"""
+    r = _discharge_once(ob, timeout_ms)
+    if r[0] == UNKNOWN:
+        r2 = _discharge_once(ob, 4 * timeout_ms)
+        return (r2[0], r2[1], r[2] + r2[2], r2[3])
+    return r
+
+
+def _discharge_once(ob, timeout_ms):
     t = time.time()
     g = ob.goal
     if z3.is_true(g):
